@@ -324,3 +324,40 @@ CONTRACTS = [
     Contract("C18.show_pa_level.set", "fake_ble:FakeBLE.show_pa_level.setter", {"self": ble_schema(name=NAMES), "enable": OneOf(Bool(), Int())},
              requires=[R + "req_fits"], ensures=[("fits", R + "ens_show_pa")], raises=("ValueError",), policy=BPOL, props=["C18"]),
 ]
+
+
+# ---- FakeBLE.__init__ establishes Inv, K and the BLE link configuration (base case of every
+#      "after any sequence of hop_channel / channel assignments / with blocks" statement above)
+
+def req_ble_init(self, spi, csn, ce_pin, spi_frequency):
+    from spec.rf24_state import hw_ranges
+    return hw_ranges(spi.hw) and same_object(ce_pin.hw, spi.hw)
+
+
+def ens_ble_init(self, exc):
+    """CRC, auto-ack, dynamic payloads, features and retries off; 4-byte addresses; TX address and
+    pipe 0 on the BLE advertising access address; 32-byte static payloads; whitening index == the
+    tuned advertising channel (K); powered down with CE low; an empty receive queue"""
+    hw = self._spi.hw
+    g = hw.reg
+    aa = bytes([0x71, 0x91, 0x7D, 0x6B])
+    return (exc is None and ble_ok(self) and (g[0] & 0x0C) == 0 and g[1] == 0 and g[0x1C] == 0 and g[0x1D] == 0 and g[4] == 0
+            and g[3] == 2 and bytes(hw.txaddr)[:4] == aa and bytes(hw.addr0)[:4] == aa and (g[2] & 1) != 0
+            and g[0x11] == 32 and not hw.ce and (g[0] & 2) == 0 and len(self.rx_queue) == 0 and len(self._mac) == 6
+            and self._ble_name is None and not self._show_dbm)
+
+
+from spec.c09 import INIT_POL  # noqa: E402
+from pyvc.specrt import same_object  # noqa: E402
+from spec.rf24_state import radio_schema  # noqa: E402
+from pyvc.schema import Obj  # noqa: E402
+
+BLE_INIT_POL = dict(INIT_POL)
+BLE_INIT_POL.update({"rf24:RF24.__init__": "inline", "fake_ble:FakeBLE.__exit__": "inline", "fake_ble:FakeBLE.hop_channel": "ref:" + R + "ref_hop_channel",
+                     "rf24:RF24.open_rx_pipe": "ref:spec.c03:ref_open_rx_pipe_v", "fake_ble:FakeBLE.channel.setter": "inline"})
+CONTRACTS.append(
+    Contract("C18.init", "fake_ble:FakeBLE.__init__",
+             {"self": Obj("fake_ble:FakeBLE", {}), "spi": Obj("spec.hw:SpiStub", {"hw": radio_schema()}), "csn": Const(None),
+              "ce_pin": Obj("spec.hw:Pin", {"hw": radio_schema()}), "spi_frequency": Const(10000000)},
+             requires=[R + "req_ble_init"], ensures=[("ble_config_and_K", R + "ens_ble_init")], raises=(), policy=BLE_INIT_POL,
+             props=["C18", "C09"]))
